@@ -1,5 +1,5 @@
 #!/usr/bin/env python3
-# Generates c18/zz_<inst>_gen_test.go from c18/curve.tmpl and c18/small.tmpl (the per-curve and
+# Generates c18/zz_<inst>_gen_test.go from c18/curve.tmpl, c18/plain.tmpl and c18/small.tmpl (the per-curve and
 # per-small-field C18 registries: the packages differ only by import path, so one template is
 # instantiated textually). Lines between "//#if <flag>" and "//#endif" are kept only when the flag is set.
 import os, re, subprocess
@@ -52,6 +52,20 @@ for path, ident, pos2, (w1, w2), flags in SMALL:
     s = (s.replace("@@PATH@@", path).replace("@@ID@@", ident).replace("@@POS2@@", pos2)
          .replace("@@W1@@", str(w1)).replace("@@W2@@", str(w2)))
     out = os.path.join(here, "c18", "zz_%s_gen_test.go" % path)
+    open(out, "w").write(s)
+    outs.append(out)
+tmpl = open(os.path.join(here, "c18", "plain.tmpl")).read()
+# curves without pairing: (path, identifier, ecc id, MiMC id, Poseidon2 id, flags)
+PLAIN = [
+    ("grumpkin", "Grumpkin", "GRUMPKIN", "MIMC_GRUMPKIN", "POSEIDON2_GRUMPKIN", {"codec", "codecfull", "msm", "affdouble", "frhash", "jointaff"}),
+    ("secp256k1", "Secp256k1", "SECP256K1", "", "", {"msm", "affdouble", "recover", "jointaff"}),
+    ("stark-curve", "Starkcurve", "STARK_CURVE", "", "", {"codec", "recover", "pedersen", "jointjac"}),
+]
+for path, ident, eccid, mimc, pos2, flags in PLAIN:
+    s = cond(tmpl, flags)
+    s = (s.replace("@@PATH@@", path).replace("@@ID@@", ident).replace("@@ECCID@@", eccid)
+         .replace("@@MIMC@@", mimc).replace("@@POS2@@", pos2))
+    out = os.path.join(here, "c18", "zz_%s_gen_test.go" % path.replace("-", ""))
     open(out, "w").write(s)
     outs.append(out)
 subprocess.run(["gofmt", "-w"] + outs, check=False)
